@@ -69,11 +69,32 @@ OPS = {ast.Lt: '<', ast.LtE: '<=', ast.Gt: '>', ast.GtE: '>=', ast.Eq: '==', ast
 FLIP = {'<': '>', '<=': '>=', '>': '<', '>=': '<=', '==': '==', '!=': '!='}
 
 
+def _paren(e, selfname):
+    s = canon(e, selfname)
+    if isinstance(e, ast.BinOp) and isinstance(e.op, (ast.Add, ast.Sub)):
+        s = '(%s)' % s
+    return s
+
+
 def diff_term(l, r, selfname):
-    rs = canon(r, selfname)
-    if isinstance(r, ast.BinOp) and isinstance(r.op, (ast.Add, ast.Sub)):
-        rs = '(%s)' % rs
-    return '%s - %s' % (canon(l, selfname), rs)
+    """Canonical term for a two-sided comparison `l op r`: the difference of the two sides with the
+    textually smaller side first; returns (term, flipped)."""
+    ls, rs = _paren(l, selfname), _paren(r, selfname)
+    if ls <= rs:
+        return '%s - %s' % (ls if not ls.startswith('(') else canon(l, selfname), rs), False
+    return '%s - %s' % (rs if not rs.startswith('(') else canon(r, selfname), ls), True
+
+
+def canon_term_text(text):
+    """Canonical orientation of a catalogue term 'a - b' (same rule as diff_term). -> (term, flipped)"""
+    try:
+        e = ast.parse(text, mode='eval').body
+    except SyntaxError:
+        return text, False
+    if isinstance(e, ast.BinOp) and isinstance(e.op, ast.Sub):
+        t, flipped = diff_term(e.left, e.right, 'self')
+        return t, flipped
+    return text, False
 
 
 def atom(l, op, r, selfname):
@@ -94,7 +115,9 @@ def atom(l, op, r, selfname):
     if cl is not None and cr is None:
         return {canon(r, selfname): ISet.cmp(FLIP[o], cl)}
     if cl is None and cr is None:
-        return {diff_term(l, r, selfname): ISet.cmp(o, 0.0)}
+        term, flipped = diff_term(l, r, selfname)
+        s = ISet.cmp(o, 0.0)
+        return {term: s.negate() if flipped else s}
     return None
 
 
@@ -376,6 +399,10 @@ def run(model, tier):
     # ---- rule 1: catalogue ------------------------------------------------
     for row in spec['rows']:
         adm = ISet.parse(row['admissible'])
+        cterm, flipped = canon_term_text(row['term'])
+        if flipped:
+            adm = adm.negate()
+        row = dict(row, term=cterm)
         must_reject = adm.complement()
         where = row.get('where', 'ctor')
         for cshort in row['classes']:
@@ -424,7 +451,7 @@ def run(model, tier):
                         'rejected_by_guards': repr(rejected)}, limit=24)
 
     # ---- rule 2: message oracle -------------------------------------------
-    exceptions = {(PREFIX + e['class'], e['term']) for e in spec.get('message_oracle_exceptions', [])}
+    exceptions = {(PREFIX + e['class'], canon_term_text(e['term'])[0]) for e in spec.get('message_oracle_exceptions', [])}
     parsed = unparsed = 0
     for ci in model.solver_classes():
         for mname in ('__init__', '_run'):
